@@ -411,10 +411,14 @@ pub const SWEEPS: &[(&str, &str, u64)] = &[
     ("rt-keys", "C16", 1),
     ("rt-ops", "C16", 4),
     ("open-crafted", "C16", 4),
-    ("range", "C17", 8),
+    ("range", "C17", 16),
     ("chunking", "C18", 2),
     ("pathbij", "C18", 1),
 ];
+
+fn name_static(_: &str) -> &'static str {
+    "chunking"
+}
 
 fn compositions(n: usize) -> Vec<Vec<usize>> {
     if n == 0 {
@@ -597,7 +601,7 @@ pub fn run_sweep(name: &str, tier: &str, chunk: u64, nchunks: u64, res: &mut Wor
         }
         "range" => {
             let big: [u64; 6] = [1 << 32, (1 << 32) + 1, 1 << 63, (1 << 63) + 1, u64::MAX - 1, u64::MAX];
-            let lens: Vec<usize> = if quick { vec![0, 1, 2, 3, 4, 5, 6, 8191, 8192, 8193, 20000] } else { (0..=12).chain([4095, 4096, 4097, 8191, 8192, 8193, 16384, 20000, 65537]).collect() };
+            let lens: Vec<usize> = if quick { vec![0, 1, 2, 3, 4, 5, 6, 8191, 8192, 8193, 20000, 65537, 1024 * 1024 + 1, 2 * 1024 * 1024 + 3] } else { (0..=12).chain([4095, 4096, 4097, 8191, 8192, 8193, 16384, 20000, 65537, 131073, 1024 * 1024 - 1, 1024 * 1024, 1024 * 1024 + 1, 2 * 1024 * 1024 + 3, 4 * 1024 * 1024 + 1]).collect() };
             for (li, &l) in lens.iter().enumerate() {
                 if li as u64 % nchunks != chunk {
                     continue;
@@ -606,7 +610,7 @@ pub fn run_sweep(name: &str, tier: &str, chunk: u64, nchunks: u64, res: &mut Wor
                     (0..=(l as u64 + 2)).collect()
                 } else {
                     let l64 = l as u64;
-                    let mut p = vec![0, 1, 2, 4095, 4096, 4097, 8191, 8192, 8193, l64 / 2, l64 - 2, l64 - 1, l64, l64 + 1, l64 + 2];
+                    let mut p = vec![0, 1, 2, 4095, 4096, 4097, 8191, 8192, 8193, 65536, 65537, 1 << 20, (1 << 20) + 1, l64 / 2, l64 - 2, l64 - 1, l64, l64 + 1, l64 + 2];
                     p.retain(|x| *x <= l64 + 2);
                     p
                 };
@@ -655,6 +659,23 @@ pub fn run_sweep(name: &str, tier: &str, chunk: u64, nchunks: u64, res: &mut Wor
                 }
                 let f = check_chunking(&mut ctx, &big, &[8192, 8192, 3616]);
                 report(res, name, json!({"content": "pattern20000", "chunks": [8192, 8192, 3616]}), f);
+                // sizes beyond plausible "large blob / large write" thresholds (16 KiB, 64 KiB, 128 KiB, 1 MiB):
+                // small-then-large, large-then-small, streamed in 4 KiB pieces, halves
+                for len in [65 * 1024 + 3, 129 * 1024 + 5, 1024 * 1024 + 7] {
+                    let data = pattern(len);
+                    let name = format!("pattern{len}");
+                    let mut plans: Vec<Vec<usize>> = vec![vec![len], vec![5, len - 5], vec![len - 5, 5], vec![7, len - 12, 5], vec![len / 2, len - len / 2]];
+                    let mut pieces = vec![4096usize; len / 4096];
+                    pieces.push(len % 4096);
+                    plans.push(pieces);
+                    let mut p16 = vec![16 * 1024usize; len / (16 * 1024)];
+                    p16.insert(0, len % (16 * 1024));
+                    plans.push(p16);
+                    for pl in plans {
+                        let f = check_chunking(&mut ctx, &data, &pl);
+                        report(res, name_static(&name), json!({"content": name, "chunks": pl}), f);
+                    }
+                }
                 let ones = vec![1usize; 300];
                 let f = check_chunking(&mut ctx, &big[..300], &ones);
                 report(res, name, json!({"content": "pattern300", "chunks": "300x1"}), f);
@@ -800,6 +821,7 @@ pub fn replay(case: &Value) -> Vec<Violation> {
             let content = match i["content"].as_str().unwrap() {
                 "pattern20000" => pattern(20_000),
                 "pattern300" => pattern(20_000)[..300].to_vec(),
+                h if h.starts_with("pattern") => pattern(h[7..].parse().unwrap()),
                 h => unhex(h),
             };
             let cuts: Vec<usize> = match &i["chunks"] {
